@@ -36,6 +36,8 @@ CHECKS = {
                 tech="z3-term symbolic execution (complex) of conj/dagger/tensordot norm identities and doubled networks vs graded oracle", ref="§4 C10", engine="B"),
     "C14": dict(text=B + " Operand snapshots (terms in order, tables, signs, labels) before/after every op; inplace=True equals out-of-place; out-of-place op followed by in-place follow-ups on the result leaves the operand unchanged.", note=NOTE_B,
                 tech="z3-term symbolic execution with operand snapshots; before==after obligations", ref="§4 C14", engine="B"),
+    "C15": dict(text=B + " History/cache clause: for families of near-identical arrays (one attribute changed, incl. sub-index structure) every ordered pair of calls under cache sizes 1, 2 and default must reproduce the cache-free result exactly. " + A + " (default-mode context manager restored on normal and exceptional exit for every nesting depth <=3).", note=NOTE_B + " " + NOTE_A + " The thread-schedule clause of C15 is NOT claimed (not applicable to solver-based checking of this code: see not_applicable).",
+                tech="z3-term symbolic execution of fuse/reshape/contraction under warmed, evicting and disabled fuse caches; CrossHair on the mode context manager", ref="§4 C15, §5", engine="B+A"),
     "C16": dict(text=B + " All constructors with every documented combination of omitted arguments must agree; arbitrary dense arrays (all entries distinct variables) under arbitrary labelings must round-trip to their projection.", note=NOTE_B,
                 tech="z3-term symbolic execution of constructors/from_dense/to_dense vs independent placement and projection oracle", ref="§4 C16", engine="B"),
     "C17": dict(text=A + " Group laws for all valid charges (unbounded integers for U1/U1U1); sector enumeration against a brute-force filter.", note=NOTE_A,
@@ -43,6 +45,9 @@ CHECKS = {
 }
 
 ALL = [f"C{i:02d}" for i in range(1, 21)]
+NA_PARTIAL = {
+    "C15": "thread-schedule clause only: concurrent out-of-place calls from several threads are not decided here - CrossHair is single-threaded and models no scheduler, the shared state is mutated through C-level container operations whose atomicity comes from the GIL, and a hand-written interleaving model would verify the model, not the code (DESIGN.md section 5); the history/cache/configuration clauses ARE claimed by the C15 check",
+}
 NA_REASON = {
     "C15": None,
     "C20": None,
@@ -89,8 +94,8 @@ def main():
             })
         else:
             m["not_applicable"].append({"property_id": pid, "reason": na.get(pid, "check not built yet in this round (planned per DESIGN.md); nothing is claimed for it")})
-    for pid, reason in na.items():
-        if pid in checks and reason:
+    for pid, reason in NA_PARTIAL.items():
+        if pid in checks:
             m["not_applicable"].append({"property_id": pid, "reason": reason})
     json.dump(m, open(os.path.join(HERE, "MANIFEST.json"), "w"), indent=1)
     print("checks:", [c["property_id"] for c in m["checks"]])
